@@ -502,6 +502,15 @@ Theorem C16_dynamic_session_no_panic : forall calls ps fs,
 Proof. exact dynamic_session_no_panic. Qed.
 Print Assumptions C16_dynamic_session_no_panic.
 
+(* Path 1.  One proposer service, any number of proposals one after the other, the collaborators
+   (graffiti provider, auctioneer, beacon node, signer, relays, submitter) behaving differently from
+   proposal to proposal in any way the decoders can deliver: every proposal is carried out (one
+   observation each), none panics, and each does exactly what it would do on a fresh service. *)
+Theorem C16_propose_session_no_panic : forall ops, Forall delivered ops ->
+  propose_seq_now ops = map (fun i => (false, fst (propose_now i))) ops.
+Proof. exact propose_seq_no_panic. Qed.
+Print Assumptions C16_propose_session_no_panic.
+
 Example C16_session_example :
   let b x := BABlock {| bk_version := 5; bk_container := true; bk_message := true; bk_body := true; bk_payload := true; bk_state_zero := false; bk_exec := x |} in
   (* the node serves block 7, fails once, then serves block 9: the head stays at 7 over the failure *)
